@@ -92,3 +92,91 @@ func c15Float32(cc *run.Case) {
 	}
 	cc.Distinct("float32/" + cc.Label)
 }
+
+// c15Float32Huge: the same ratios on float32 bars near the top of the type's
+// range (prices up to 3e37, ranges of 5-40% of the price). The documented
+// formulas divide before they scale, so nothing overflows: wherever the
+// float64 instantiation yields a finite value on the same bars, the float32
+// one must be finite too and inside the range.
+func c15Float32Huge(cc *run.Case) {
+	r := cc.R
+	for rep := 0; rep < 20; rep++ {
+		n := r.Range(20, 80)
+		level := r.PickF(1e30, 1e36, 1e37, 3e37)
+		rel := r.PickF(0.05, 0.2, 0.4)
+		h32, l32, c32 := make([]float32, n), make([]float32, n), make([]float32, n)
+		h64, l64, c64 := make([]float64, n), make([]float64, n), make([]float64, n)
+		for i := 0; i < n; i++ {
+			lo := level * (1 + 0.1*r.Norm()*rel)
+			if lo < level/4 {
+				lo = level / 4
+			}
+			if lo > 3e37 {
+				lo = 3e37
+			}
+			hi := lo * (1 + rel*r.F())
+			l32[i], h32[i] = float32(lo), float32(hi)
+			if h32[i] < l32[i] {
+				h32[i] = l32[i]
+			}
+			c32[i] = l32[i] + (h32[i]-l32[i])*float32(r.F())
+			if c32[i] > h32[i] {
+				c32[i] = h32[i]
+			}
+			h64[i], l64[i], c64[i] = float64(h32[i]), float64(l32[i]), float64(c32[i])
+		}
+		type pair struct {
+			name   string
+			a      []float32
+			b      []float64
+			lo, hi float64
+		}
+		so32, so64 := momentum.NewStochasticOscillator[float32](), momentum.NewStochasticOscillator[float64]()
+		k32 := mon.RunSimple([][]float32{h32, l32, c32}, func(in []<-chan float32) []<-chan float32 {
+			k, d := so32.Compute(in[0], in[1], in[2])
+			return []<-chan float32{k, d}
+		})
+		k64 := mon.RunSimple([][]float64{h64, l64, c64}, func(in []<-chan float64) []<-chan float64 {
+			k, d := so64.Compute(in[0], in[1], in[2])
+			return []<-chan float64{k, d}
+		})
+		w32 := mon.RunSimple([][]float32{h32, l32, c32}, func(in []<-chan float32) []<-chan float32 {
+			return []<-chan float32{momentum.NewWilliamsR[float32]().Compute(in[0], in[1], in[2])}
+		})
+		w64 := mon.RunSimple([][]float64{h64, l64, c64}, func(in []<-chan float64) []<-chan float64 {
+			return []<-chan float64{momentum.NewWilliamsR[float64]().Compute(in[0], in[1], in[2])}
+		})
+		m32 := mon.RunSimple([][]float32{h32, l32, c32}, func(in []<-chan float32) []<-chan float32 {
+			return []<-chan float32{volume.NewMfm[float32]().Compute(in[0], in[1], in[2])}
+		})
+		m64 := mon.RunSimple([][]float64{h64, l64, c64}, func(in []<-chan float64) []<-chan float64 {
+			return []<-chan float64{volume.NewMfm[float64]().Compute(in[0], in[1], in[2])}
+		})
+		for _, p := range []pair{
+			{"momentum.StochasticOscillator[float32].k", k32[0], k64[0], 0, 100},
+			{"momentum.StochasticOscillator[float32].d", k32[1], k64[1], 0, 100},
+			{"momentum.WilliamsR[float32]", w32[0], w64[0], -100, 0},
+			{"volume.Mfm[float32]", m32[0], m64[0], -1, 1},
+		} {
+			if len(p.a) != len(p.b) {
+				cc.Viol("", fmt.Sprintf("%s emits %d values, the float64 instantiation %d on the same bars", p.name, len(p.a), len(p.b)), nil)
+				return
+			}
+			span := p.hi - p.lo
+			for k := range p.a {
+				x, y := float64(p.a[k]), p.b[k]
+				if math.IsNaN(y) || math.IsInf(y, 0) {
+					cc.Count("exempt_nonfinite", 1)
+					continue
+				}
+				if math.IsNaN(x) || math.IsInf(x, 0) || x < p.lo-1e-3*span || x > p.hi+1e-3*span {
+					cc.Viol("", fmt.Sprintf("%s at index %d: value %v on valid bars at price level %.3g (ranges of %.0f%%): the float64 instantiation gives %v on the same bars, the documented formula does not overflow there", p.name, k, p.a[k], level, rel*100, y),
+						map[string]any{"highs": h32[:min(n, 30)], "lows": l32[:min(n, 30)], "closes": c32[:min(n, 30)]})
+					return
+				}
+				cc.Count("values_checked", 1)
+			}
+		}
+	}
+	cc.Distinct("float32huge/" + cc.Label)
+}
